@@ -73,6 +73,7 @@ type Ctx struct {
 	cliWG  sync.WaitGroup
 	opN    atomic.Int64
 	OpCap  int64
+	SkipOffline bool // scenarios that submit operations outside the recorded client history
 	smu    sync.Mutex
 	leaderHint atomic.Value // string
 	mu     sync.Mutex
@@ -295,6 +296,9 @@ func (x *Ctx) FinalWrite(bound time.Duration) bool {
 
 // Finish runs the end-of-run oracles and fills in the result.
 func (x *Ctx) Finish() {
+	if x.SkipOffline {
+		return
+	}
 	st := oracle.Offline(x.M, 20*time.Second)
 	x.Res.Offline = &st
 	if st.Porcupine == "unknown" {
